@@ -343,7 +343,10 @@ def g_options(rng, big_ok=False):
         opts.append([n, kind, v])
     if big_ok and not big_used:
         cand = [o for o in opts if o[1] in "OS"]
-        if not cand: opts.append([prev + rng.choice([0, 1, 13, 2000]), "O", []]); cand = [opts[-1]]
+        if not cand:
+            # (an opaque number: a 65 kB *uint* would cost minutes of list-of-bits arithmetic in vm_compute)
+            d = rng.choice([d for d in (0, 1, 13, 2000) if rfc_format(prev + d) == "O"])
+            opts.append([prev + d, "O", []]); cand = [opts[-1]]
         o = rng.choice(cand)
         o[2] = {"fill": [rng.randint(0x20, 0x7E) for _ in range(rng.randint(1, 4))], "len": rng.choice([65802, 65803, 65804])}
     r = rng.random()
